@@ -1,15 +1,25 @@
-"""C19 - The beacon client keeps a stable identity and dispatches tasks exactly once."""
+"""C19 - The beacon client keeps a stable identity and dispatches tasks exactly once.
+
+The rules locate their subjects by role (the parameter that is the registration key, the lookups of `self.task_map`
+under that key / under the catch-all key, the value that reaches the `bid` / `info` field of the metadata, the draw that
+feeds `self.aes_rand`, ...) and decide them on the CFG / with the abstract interpreter; a rule that cannot locate its
+subject records an *undecided* obligation, a located subject that fails its necessary condition is a violation.
+"""
 
 from __future__ import annotations
 
 import ast
+import copy
+from dataclasses import replace
 
 from csverif import absint
 from csverif.absint import SymPoly, sympoly
 from csverif.alias import Alias
-from csverif.astutil import assignments_to, body_walk, compare_parts, const_eval, dotted, fn_calls, is_const, NotConst, params, src, statements
+from csverif.astutil import assignments_to, body_walk, compare_parts, const_eval, dotted, fn_calls, kwarg, NotConst, params, src, statements
 from csverif.cfg import ENTRY, EXIT
-from csverif.q import FuncView, dominating_conditions, guarded_by, origin, raise_class
+from csverif.q import FuncView, dominating_conditions, inline, raise_class
+
+ADDERS = {"append": 0, "appendleft": 0, "add": 0, "insert": 1, "extend": 0, "extendleft": 0}
 
 
 def _c(node):
@@ -19,14 +29,56 @@ def _c(node):
         return None
 
 
+def _const(ctx, f, e):
+    """Constant value of expression `e` evaluated in function `f`, else None: literals and arithmetic on them (incl. small
+    powers), module-level constants, class-level constants of f's class read as self.X / cls.X / Class.X (when no method
+    stores that attribute), all through single-definition locals."""
+    if e is None:
+        return None
+    e = inline(f.node, e)
+    cattrs = {}
+    if f.cls:
+        cfq = f"{f.module.name}.{f.cls}"
+        try:
+            cattrs = dict(ctx.repo.class_attrs(cfq))
+        except Exception:
+            cattrs = {}
+        if cattrs:
+            stored = {n.attr for m in ctx.repo.methods(cfq) for n in ast.walk(m.node) if isinstance(n, ast.Attribute) and isinstance(n.ctx, (ast.Store, ast.Del))}
+            cattrs = {k: v for k, v in cattrs.items() if k not in stored}
+
+    class _Pre(ast.NodeTransformer):
+        def visit_Attribute(self, node):
+            if isinstance(node.value, ast.Name) and node.value.id in ("self", "cls", f.cls) and node.attr in cattrs:
+                return _Pre().visit(copy.deepcopy(cattrs[node.attr]))
+            return self.generic_visit(node)
+
+        def visit_BinOp(self, node):
+            node = self.generic_visit(node)
+            if isinstance(node.op, ast.Pow):
+                a, b = _c(node.left), _c(node.right)
+                if isinstance(a, int) and isinstance(b, int) and not isinstance(a, bool) and 0 <= b <= 128 and abs(a) <= 1 << 16:
+                    return ast.copy_location(ast.Constant(value=a ** b), node)
+            return node
+
+    from csverif.astutil import module_env
+
+    try:
+        return const_eval(_Pre().visit(copy.deepcopy(e)), module_env(f.module))
+    except (NotConst, TypeError, KeyError, RecursionError):
+        return None
+
+
 def run(ctx):
     rep = ctx.rep
     rep.explanation = (
         "Static analysis of client.py: may-alias + mutation analysis with HttpBeaconClient.task_map as the shared store "
-        "(only register_task may append to a registered handler list); dominance of the catch-all fallback by `not "
-        "handlers` and single dispatch site; parity/interval abstract interpretation of the beacon id normalisation; "
-        "dominance of random.seed(id) over the getrandbits that produces aes_rand with no intervening RNG use; length "
-        "interval of the metadata info bytes against 128-11-59; polynomial bounds of the sleep time."
+        "(only register_task may append to a registered handler list; it adds the handler exactly once under its key); "
+        "the catch-all lookups are controlled (CFG dominance or and/or/conditional-expression position) by the emptiness "
+        "of an accumulator that has received every specific source, and no specific source is added after that decision; "
+        "single dispatch site in the beacon loop; parity/interval abstract interpretation of the beacon id that reaches "
+        "the metadata; random.seed(f(normalised id)) dominates the draw that feeds aes_rand with no intervening RNG use; "
+        "length interval of the metadata info bytes against 128-11-59; symbolic range of the sleep time."
     )
     rep.not_decided = ["behaviour of the loop against a live server", "that handlers themselves behave"]
     rep.trusted_base = ["CPython ast", "networkx dominators", "interval/parity/length domains and SymPoly in csverif/absint.py", "random.uniform(a,b) in [a,b] for a<=b"]
@@ -36,6 +88,297 @@ def run(ctx):
     r4(ctx)
     r5(ctx)
     r6(ctx)
+
+
+# ------------------------------------------------------------------------------------------------ generic helpers
+def _is_self_attr(e, attr):
+    return isinstance(e, ast.Attribute) and e.attr == attr and isinstance(e.value, ast.Name) and e.value.id == "self"
+
+
+def _is_name(e, name):
+    return isinstance(e, ast.Name) and e.id == name
+
+
+def _loads(e):
+    return {n.id for n in ast.walk(e) if isinstance(n, ast.Name) and isinstance(n.ctx, ast.Load)}
+
+
+def _chain_nodes(fn, e, all_defs=False):
+    """Every AST node of expression `e` and - through local names - of the expressions that define them (node identity
+    is kept, unlike `inline`).  With all_defs every definition of a multiply-defined local is followed (may-flow)."""
+    out, seen = [], set()
+
+    def go(x, depth):
+        for n in ast.walk(x):
+            out.append(n)
+            if isinstance(n, ast.Name) and isinstance(n.ctx, ast.Load) and n.id not in params(fn) and n.id not in seen and depth < 8:
+                defs = [v for _s, v in assignments_to(fn, n.id) if v is not None]
+                if defs and (all_defs or len(assignments_to(fn, n.id)) == 1):
+                    seen.add(n.id)
+                    for v in defs:
+                        go(v, depth + 1)
+
+    go(e, 0)
+    return out
+
+
+def _expr_conditions(fv, node):
+    """Conditions that control the evaluation of `node` *inside its own statement*: the test of an enclosing conditional
+    expression, the earlier operands of an enclosing `and` / `or`.  -> [(test expression, polarity)]"""
+    out = []
+    child = node
+    par = fv.parent.get(id(child))
+    while par is not None and not isinstance(par, (ast.stmt, ast.ExceptHandler)):
+        if isinstance(par, ast.IfExp):
+            if child is par.body:
+                out.append((par.test, True))
+            elif child is par.orelse:
+                out.append((par.test, False))
+        elif isinstance(par, ast.BoolOp) and child in par.values:
+            for v in par.values[: par.values.index(child)]:
+                out.append((v, isinstance(par.op, ast.And)))
+        child, par = par, fv.parent.get(id(par))
+    return out
+
+
+def _flatten_condition(e, pol, out):
+    """push negations inwards; split `a and b` holding / `a or b` failing into their parts"""
+    while isinstance(e, ast.UnaryOp) and isinstance(e.op, ast.Not):
+        e, pol = e.operand, not pol
+    if isinstance(e, ast.BoolOp) and (isinstance(e.op, ast.And) == pol):
+        for v in e.values:
+            _flatten_condition(v, pol, out)
+        return
+    out.append((e, pol))
+
+
+def _controlling_conditions(ctx, f, node):
+    """[(test expression, polarity, statement that evaluates the test)] for every condition known to hold when `node`
+    is evaluated: branch edges dominating its statement (CFG) and its position inside and/or/conditional expressions."""
+    fv = FuncView.of(f.node)
+    out = []
+    for _t, pol, e in dominating_conditions(ctx, f, node):
+        st = fv.stmt_of(e)
+        if st is None:
+            continue  # synthesised mirror of a comparison; the original is listed as well
+        out.append((e, pol, st))
+    st = fv.stmt_of(node)
+    for e, pol in _expr_conditions(fv, node):
+        flat = []
+        _flatten_condition(e, pol, flat)
+        out.extend((e2, p2, st) for e2, p2 in flat)
+    return out
+
+
+def _empty_name(fn, e, pol, stop=frozenset()):
+    """The local name that the condition (e, polarity) establishes to be an *empty* collection, else None.
+    Understands `x`, `len(x)`, `len(x) <op> 0|1`, `x == []` (either orientation), through single-definition temporaries
+    (the names in `stop` are the collections of interest and are not substituted)."""
+    e = inline(fn, e, stop=frozenset(stop))
+    flat = []
+    _flatten_condition(e, pol, flat)
+    if len(flat) != 1:
+        return None
+    e, pol = flat[0]
+
+    def coll(x):
+        if isinstance(x, ast.Name):
+            return x.id
+        return None
+
+    def length(x):
+        if isinstance(x, ast.Call) and dotted(x.func) == "len" and len(x.args) == 1:
+            return coll(x.args[0])
+        return None
+
+    if coll(e) and not pol:
+        return coll(e)
+    if length(e) and not pol:
+        return length(e)
+    if isinstance(e, ast.Call) and dotted(e.func) == "bool" and len(e.args) == 1 and not pol:
+        return coll(e.args[0]) or length(e.args[0])
+    if isinstance(e, ast.Compare) and len(e.ops) == 1:
+        for l, op, r in compare_parts(e):
+            n, k = length(l), _c(r)
+            if n and isinstance(k, int) and not isinstance(k, bool):
+                empty_when_true = (isinstance(op, ast.Eq) and k == 0) or (isinstance(op, ast.Lt) and k == 1) or (isinstance(op, ast.LtE) and k == 0)
+                empty_when_false = (isinstance(op, ast.NotEq) and k == 0) or (isinstance(op, ast.Gt) and k == 0) or (isinstance(op, ast.GtE) and k == 1)
+                if (empty_when_true and pol) or (empty_when_false and not pol):
+                    return n
+            n = coll(l)
+            if n and isinstance(r, (ast.List, ast.Tuple)) and not r.elts:
+                if (isinstance(op, ast.Eq) and pol) or (isinstance(op, ast.NotEq) and not pol):
+                    return n
+    return None
+
+
+def _added_values(st):
+    """(receiver-or-target expression, [value expressions]) if statement `st` puts values into a variable / container:
+    assignments, augmented assignments, `recv.append(v)` & co.  Return statements count with receiver None."""
+    if isinstance(st, ast.Assign):
+        return [(t, [st.value]) for t in st.targets]
+    if isinstance(st, ast.AnnAssign) and st.value is not None:
+        return [(st.target, [st.value])]
+    if isinstance(st, ast.AugAssign):
+        return [(st.target, [st.value])]
+    if isinstance(st, ast.Return) and st.value is not None:
+        return [(None, [st.value])]
+    if isinstance(st, ast.Expr):
+        v = st.value
+        if isinstance(v, (ast.Yield, ast.YieldFrom)) and v.value is not None:
+            return [(None, [v.value])]
+        if isinstance(v, ast.Call) and isinstance(v.func, ast.Attribute) and v.func.attr in ADDERS and v.args:
+            return [(v.func.value, list(v.args) + [k.value for k in v.keywords])]
+    if isinstance(st, (ast.For, ast.AsyncFor)):
+        return [(st.target, [st.iter])]
+    return []
+
+
+def _flow_names(fn, seeds, blocked=frozenset(), skip=None):
+    """Local names that (flow-insensitively) may hold values derived from the AST nodes `seeds`: closure over
+    assignments, `x.append(v)`-style additions, loop targets and walrus bindings.  Names in `blocked` receive but do not
+    pass the derivation on; loads for which `skip(node)` holds are ignored."""
+    seed_ids = {id(s) for s in seeds}
+    names = set()
+
+    def derived(v):
+        for n in ast.walk(v):
+            if id(n) in seed_ids:
+                return True
+            if isinstance(n, ast.Name) and isinstance(n.ctx, ast.Load) and n.id in names and n.id not in blocked and not (skip is not None and skip(n)):
+                return True
+        return False
+
+    changed = True
+    while changed:
+        changed = False
+        for st in statements(fn):
+            for tgt, vals in _added_values(st):
+                if tgt is None or not any(derived(v) for v in vals):
+                    continue
+                for t in ast.walk(tgt):
+                    if isinstance(t, ast.Name) and t.id not in names:
+                        # `a.b.append(v)` / `a[i] = v`: the root name holds the value too
+                        names.add(t.id)
+                        changed = True
+        for n in body_walk(fn):
+            if isinstance(n, ast.NamedExpr) and n.target.id not in names and derived(n.value):
+                names.add(n.target.id)
+                changed = True
+    return names
+
+
+# ------------------------------------------------------------------------------------------------ R1
+def _map_access(fn, e, mapname="task_map"):
+    """(kind, key expression) if `e` reads/creates the entry of self.<mapname> under a key: `m[k]`, `m.get(k, ..)`,
+    `m.setdefault(k, ..)`, `m.__getitem__(k)`, `m.pop(k, ..)`."""
+    if isinstance(e, ast.Subscript) and _is_self_attr(e.value, mapname) and not isinstance(e.slice, ast.Slice):
+        return "item", e.slice
+    if isinstance(e, ast.Call) and isinstance(e.func, ast.Attribute) and _is_self_attr(e.func.value, mapname) and e.args and e.func.attr in ("get", "setdefault", "__getitem__", "pop"):
+        return e.func.attr, e.args[0]
+    return None
+
+
+def _get_or_create(fn, recv, K):
+    """`recv` is a local every definition of which is the list kept under key K of self.task_map: read from the map
+    (`m[K]`, `m.setdefault(K, ..)`, `m.get(K)` without a substitute default) or created and stored in the same
+    (chained) assignment `x = m[K] = []`."""
+    if not isinstance(recv, ast.Name) or recv.id in params(fn):
+        return False
+    defs = assignments_to(fn, recv.id)
+    if not defs:
+        return False
+    for st, v in defs:
+        if v is None:
+            return False
+        if isinstance(st, ast.Assign) and any((_map_access(fn, t) or ("", None))[0] == "item" and _is_name(inline(fn, _map_access(fn, t)[1]), K) for t in st.targets):
+            continue
+        acc = _map_access(fn, inline(fn, v, stop=frozenset({recv.id})))
+        if acc is None or not _is_name(inline(fn, acc[1]), K):
+            return False
+        kind = acc[0]
+        if kind in ("item", "setdefault", "__getitem__"):
+            continue
+        call = inline(fn, v, stop=frozenset({recv.id}))
+        if kind == "get" and (len(call.args) == 1 or (len(call.args) == 2 and isinstance(call.args[1], ast.Constant) and call.args[1].value is None)) and not call.keywords:
+            continue
+        return False
+    return True
+
+
+def _register_rule(ctx):
+    """register_task(key, handler) adds `handler` exactly once, on every path, to the list kept under `key`."""
+    reg = ctx.repo.func("client.HttpBeaconClient.register_task")
+    text = "self.task_map[command_id].append(func)"
+    ps = params(reg.node)
+    if len(ps) < 3:
+        ctx.undecided("R1", "AGREE", reg, text, f"register_task has no (key, handler) parameter pair any more: {ps}")
+        return
+    K, F = ps[1], ps[2]
+    cfg = ctx.cfg(reg)
+    good, bad, unknown = [], [], []
+    for st in statements(reg.node):
+        for tgt, vals in _added_values(st):
+            n_f = sum(1 for v in vals for n in ast.walk(inline(reg.node, v)) if _is_name(n, F))
+            if not n_f:
+                continue
+            if tgt is None:
+                unknown.append(f"`{src(st)[:60]}` hands the handler out")
+                continue
+            recv = inline(reg.node, tgt)
+            acc = _map_access(reg.node, recv)
+            if acc is None and _get_or_create(reg.node, recv, K):
+                # x = m.get(k) / if x is None: x = m[k] = [] / x.append(f): x is the list stored under k on every path
+                if n_f != 1:
+                    bad.append(f"`{src(st)[:60]}` adds the handler {n_f} times")
+                else:
+                    good.append(st)
+                continue
+            if acc is None:
+                if any(_is_self_attr(n, "task_map") for n in ast.walk(recv)):
+                    bad.append(f"`{src(st)[:60]}` does not address the entry of the key parameter")
+                else:
+                    unknown.append(f"receiver of `{src(st)[:60]}` is not resolved to an entry of self.task_map")
+                continue
+            kind, key = acc
+            if not _is_name(inline(reg.node, key), K):
+                bad.append(f"`{src(st)[:60]}` files the handler under `{src(key)}`, not under the key parameter")
+                continue
+            if isinstance(st, (ast.Assign, ast.AnnAssign)):
+                # m[k] = <old entries> + [f]: the handlers registered before must be kept
+                old = [n for v in vals for n in ast.walk(inline(reg.node, v)) if (_map_access(reg.node, n) or (None, None))[1] is not None and _is_name(inline(reg.node, _map_access(reg.node, n)[1]), K)]
+                if not old:
+                    bad.append(f"`{src(st)[:60]}` replaces the handlers registered before")
+                    continue
+            elif kind not in ("item", "setdefault", "__getitem__"):
+                bad.append(f"`{src(st)[:60]}` adds to the result of .{kind}(), which is not stored when the key is new")
+                continue
+            if n_f != 1:
+                bad.append(f"`{src(st)[:60]}` adds the handler {n_f} times")
+                continue
+            good.append(st)
+    if bad:
+        ctx.ob("R1", "AGREE", reg, text, False, "register_task does not append exactly once under its command id: " + "; ".join(bad))
+        return
+    if unknown and not good:
+        ctx.undecided("R1", "AGREE", reg, text, "the statement that stores the handler is not understood: " + "; ".join(unknown))
+        return
+    if not good:
+        ctx.ob("R1", "AGREE", reg, text, False, "register_task does not append exactly once under its command id: the handler parameter is never stored")
+        return
+    problems = []
+    for st in good:
+        n = cfg.node(st)
+        if cfg.in_cycle(n):
+            problems.append(f"`{src(st)[:50]}` is inside a loop")
+    for i, a in enumerate(good):
+        for b in good[i + 1:]:
+            if cfg.reaches(cfg.node(a), cfg.node(b)) or cfg.reaches(cfg.node(b), cfg.node(a)):
+                problems.append(f"`{src(a)[:40]}` and `{src(b)[:40]}` are executed for the same registration")
+    if cfg.reaches(ENTRY, EXIT, avoiding=[cfg.node(s) for s in good]):
+        problems.append("there is a path through register_task that does not store the handler")
+    ok = not problems
+    ctx.ob("R1", "AGREE", reg, text, ok, "register_task appends the handler once under its command id" if ok else "register_task does not append exactly once under its command id: " + "; ".join(problems))
 
 
 def r1(ctx):
@@ -58,104 +401,564 @@ def r1(ctx):
     ret = al.taint_returns.get(g.fq)
     ctx.ob("R1", "ALIAS", g, "return value", ret is None, "returns a fresh list" if ret is None else f"hands out a registered handler list by reference: {ret}")
     # register_task is the only writer
-    reg = ctx.repo.func("client.HttpBeaconClient.register_task")
-    apps = [c for c in fn_calls(reg.node) if isinstance(c.func, ast.Attribute) and c.func.attr == "append"]
-    ok = len(apps) == 1 and src(apps[0].func.value) == "self.task_map[command_id]" and dotted(apps[0].args[0]) == params(reg.node)[2]
-    ctx.ob("R1", "AGREE", reg, "self.task_map[command_id].append(func)", ok, "register_task appends the handler once under its command id" if ok else "register_task does not append exactly once under its command id")
+    _register_rule(ctx)
     ctx.rep.count("task_map_reads", sum(1 for f in ctx.repo.all_funcs() for n in body_walk(f.node) if is_source(f, n)), floor=4)
 
 
-def r2(ctx):
+# ------------------------------------------------------------------------------------------------ R2
+def _get_handlers_rule(ctx):
     g = ctx.repo.func("client.HttpBeaconClient.get_handlers")
+    fn = g.node
     cfg = ctx.cfg(g)
-    HV = next((dotted(r.value) for r in statements(g.node) if isinstance(r, ast.Return) and isinstance(r.value, ast.Name)), "handlers")
-    # the catch-all lookup (key -1) is dominated by `not handlers`
-    fall = [c for c in fn_calls(g.node) if isinstance(c.func, ast.Attribute) and c.func.attr in ("get", "__getitem__") and dotted(c.func.value) == "self.task_map" and c.args and _c(c.args[0]) == -1]
-    fall += [n for n in body_walk(g.node) if isinstance(n, ast.Subscript) and dotted(n.value) == "self.task_map" and _c(n.slice) == -1]
-    ok = bool(fall) and all(guarded_by(ctx, g, c, lambda t: False if dotted(t) == HV else None) for c in fall)
-    ctx.ob("R2", "DOM", g, "catch-all fallback", ok, "catch-all handlers are consulted only when no handler was found" if ok else "catch-all lookup is not dominated by `not handlers`")
-    oc = [n for n in body_walk(g.node) if isinstance(n, ast.Call) and dotted(n.func) == "getattr" and len(n.args) >= 2 and _c(n.args[1]) == "on_catch_all"]
-    ok = bool(oc) and all(guarded_by(ctx, g, c, lambda t: False if dotted(t) == HV else None) for c in oc)
-    ctx.ob("R2", "DOM", g, "on_catch_all fallback", ok, "on_catch_all is consulted only when no handler was found" if ok else "on_catch_all lookup is not dominated by `not handlers`")
-    # "no handler was found" must be decided after *every* specific source was consulted: any addition to the handler list
-    # outside the fallback branch precedes (dominates) the emptiness test - otherwise a command handled only by an
-    # on_<command> method is also dispatched to the catch-all handlers
-    fv = FuncView.of(g.node)
-    tests = [s for s in statements(g.node) if isinstance(s, ast.If) and any(dotted(n) == HV for n in ast.walk(s.test)) and any(fv.enclosing(c, (ast.If,)) is s or s in fv.ancestors(c) for c in fall + oc)]
-    adds = [s for s in statements(g.node) if (isinstance(s, ast.Expr) and isinstance(s.value, ast.Call) and isinstance(s.value.func, ast.Attribute) and s.value.func.attr in ("append", "extend", "insert") and dotted(s.value.func.value) == HV)
-            or (isinstance(s, (ast.Assign, ast.AugAssign)) and any(dotted(t) == HV for t in (s.targets if isinstance(s, ast.Assign) else [s.target])))]
+    fv = FuncView.of(fn)
+    ps = params(fn)
+    T_FALL, T_OC, T_ORDER, T_LOOKUP = "catch-all fallback", "on_catch_all fallback", "emptiness test after all specific sources", "self.task_map.get(command_id, [])"
+    if len(ps) < 2:
+        for t in (T_FALL, T_OC, T_ORDER, T_LOOKUP):
+            ctx.undecided("R2", "DOM", g, t, "get_handlers has no command id parameter any more")
+        return
+    K = ps[1]
+    # ---- locate the sources by role
+    specific, fall, other_reads = [], [], []
+    accessed = set()
+    for n in body_walk(fn):
+        acc = _map_access(fn, n)
+        if acc is None:
+            continue
+        accessed.add(id(n.value if isinstance(n, ast.Subscript) else n.func.value))
+        key = inline(fn, acc[1])
+        kv = _const(ctx, g, key)
+        if _is_name(key, K):
+            specific.append(n)
+        elif kv == -1 and not isinstance(kv, bool):
+            fall.append(n)
+        else:
+            other_reads.append(n)
+    for n in body_walk(fn):
+        if _is_self_attr(n, "task_map") and id(n) not in accessed:
+            par = fv.parent.get(id(n))
+            # `k in self.task_map` is a membership test, not a read of the handlers
+            if isinstance(par, ast.Compare) and any(isinstance(o, (ast.In, ast.NotIn)) for o in par.ops):
+                continue
+            other_reads.append(n)
+    dyn, oc = [], []
+    for c in fn_calls(fn):
+        if dotted(c.func) == "getattr" and len(c.args) >= 2 and _is_name(c.args[0], "self"):
+            name = _const(ctx, g, c.args[1])
+            if name == "on_catch_all":
+                oc.append(c)
+            elif not isinstance(name, str):
+                dyn.append(c)
+    # plain attribute reads of the catch-all method (`self.on_catch_all`, e.g. after a hasattr test)
+    oc += [n for n in body_walk(fn) if _is_self_attr(n, "on_catch_all") and isinstance(n.ctx, ast.Load)]
+    sources = specific + dyn
+    # names that hold specific handlers; per source for the completeness test
+    per_source = [(s, _flow_names(fn, [s])) for s in sources]
+    derived_any = set().union(*[names for _s, names in per_source]) if per_source else set()
+
+    # ---- the AGREE part: handlers are looked up under the task's command id
+    if specific:
+        ctx.ob("R2", "AGREE", g, T_LOOKUP, True, "handlers are looked up under the task's command id")
+    elif other_reads:
+        ctx.undecided("R2", "AGREE", g, T_LOOKUP, f"self.task_map is read in a way the rule does not understand: {[src(n)[:40] for n in other_reads][:3]}")
+    else:
+        ctx.ob("R2", "AGREE", g, T_LOOKUP, False, "the handlers registered under the task's command id are never looked up")
+
+    # ---- emptiness decisions that control the catch-all sources
+    src_ids = {id(s) for s in sources}
+
+    def guards(node):
+        """-> (decisions [(tested name, statement that takes the decision)], a controlling condition mentions specific
+        handlers but its shape is not understood)"""
+        found, vague = [], False
+        for e, pol, st in _controlling_conditions(ctx, g, node):
+            n = _empty_name(fn, e, pol, derived_any)
+            if n is not None and n in derived_any:
+                found.append((n, st))
+            elif (_loads(inline(fn, e, stop=frozenset(derived_any))) & derived_any) or any(id(x) in src_ids for x in _chain_nodes(fn, e)):
+                vague = True
+        return found, vague
+
+    def selected_only_when_empty(c):
+        """The catch-all values are computed unconditionally but kept apart from the specific ones: they may flow on
+        (into the result or into a list holding specific handlers) only from positions controlled by an emptiness
+        decision on the specific accumulator (`return specific or catch_all`, `if specific: return specific`)."""
+        found = []
+
+        def guarded_load(n):
+            f2, _vague = guards(n)
+            found.extend(f2)
+            return bool(f2)
+
+        apart = _flow_names(fn, [c], skip=guarded_load)
+        if not apart or (apart & derived_any):
+            return []
+        for st in statements(fn):
+            for tgt, vals in _added_values(st):
+                if tgt is not None:
+                    continue
+                for v in vals:
+                    for n in ast.walk(v):
+                        if (n is c or (isinstance(n, ast.Name) and isinstance(n.ctx, ast.Load) and n.id in apart)) and not guarded_load(n):
+                            return []
+        return found
+
+    decisions = []
+
+    def fallback_ob(nodes, text, what, absent_detail, ok_detail):
+        if not nodes:
+            # is there a lookup the rule does not understand that may stand for it?
+            if other_reads or (text == T_OC and any(guards(d)[0] for d in dyn)):
+                ctx.undecided("R2", "DOM", g, text, f"the {what} cannot be located (the lookups present are not understood)")
+            else:
+                ctx.ob("R2", "DOM", g, text, False, absent_detail)
+            return
+        bad, vague_only = [], []
+        for c in nodes:
+            found, vague = guards(c)
+            if not found:
+                # computed eagerly, selected later
+                found = selected_only_when_empty(c)
+            if found:
+                decisions.extend(found)
+            else:
+                (vague_only if vague else bad).append(c)
+        if bad:
+            ctx.ob("R2", "DOM", g, text, False, f"{what} is not dominated by `not handlers`", bad[0])
+        elif vague_only:
+            ctx.undecided("R2", "DOM", g, text, f"the {what} depends on the specific handlers through a condition whose shape is not understood: `{src(fv.stmt_of(vague_only[0]))[:60]}`")
+        else:
+            ctx.ob("R2", "DOM", g, text, True, ok_detail)
+
+    fallback_ob(fall, T_FALL, "catch-all lookup", "the catch-all handlers (key -1) are never consulted", "catch-all handlers are consulted only when no handler was found")
+    fallback_ob(oc, T_OC, "on_catch_all lookup", "on_catch_all is never consulted", "on_catch_all is consulted only when no handler was found")
+
+    # ---- "no handler was found" must be decided after *every* specific source was consulted: the tested accumulator has
+    # received every specific source, and nothing specific is added once the decision was taken - otherwise a command
+    # handled only by an on_<command> method is also dispatched to the catch-all handlers
+    if not decisions:
+        ctx.undecided("R2", "DOM", g, T_ORDER, "no emptiness decision controlling the catch-all sources was located")
+        return
+    if not sources:
+        ctx.undecided("R2", "DOM", g, T_ORDER, "no specific handler source was located")
+        return
+    tested = {n for n, _st in decisions}
+    problems = []
+    for n in sorted(tested):
+        for s, names in per_source:
+            if n not in names:
+                problems.append(f"a list is tested for emptiness that never receives `{src(s)[:50]}`")
+    held = _flow_names(fn, sources, blocked=frozenset(tested)) - tested
+
+    def specific_value(x):
+        return id(x) in src_ids or (isinstance(x, ast.Name) and isinstance(x.ctx, ast.Load) and x.id in held)
+
     late = []
-    for t in tests:
-        for s in adds:
-            if t in fv.ancestors(s):
-                continue  # inside the fallback branch
-            if cfg.reaches(cfg.node(t), cfg.node(s)):
-                late.append(src(s)[:50])
-    ctx.ob("R2", "DOM", g, "emptiness test after all specific sources", bool(tests) and not late,
-           f"{len(adds)} additions to the handler list; none outside the fallback branch follows the `not {HV}` test" if tests and not late else f"specific handlers added after the fallback decision: {late} (tests found: {len(tests)})")
-    first = [c for c in fn_calls(g.node) if isinstance(c.func, ast.Attribute) and c.func.attr == "get" and dotted(c.func.value) == "self.task_map" and c.args and dotted(c.args[0]) == params(g.node)[1]]
-    ctx.ob("R2", "AGREE", g, "self.task_map.get(command_id, [])", len(first) == 1, "handlers are looked up under the task's command id")
-    # _beacon_loop: one dispatch site
+    seen = set()
+    for _n, tst in decisions:
+        if id(tst) in seen or not cfg.has(tst):
+            continue
+        seen.add(id(tst))
+        for st in statements(fn):
+            if st is tst or isinstance(st, (ast.For, ast.AsyncFor)) or not cfg.has(st) or not cfg.reaches(cfg.node(tst), cfg.node(st)):
+                continue
+            if any(specific_value(x) for _tgt, vals in _added_values(st) for v in vals for x in ast.walk(v)):
+                late.append(src(st)[:50])
+        if not isinstance(tst, (ast.If, ast.While)):
+            # decision taken inside an expression (`acc or ..`, `.. if acc else ..`): what it controls comes after it
+            for x in ast.walk(tst):
+                if specific_value(x) and any(_empty_name(fn, e, pol, derived_any) in tested for e, pol in _expr_conditions(fv, x)):
+                    late.append(src(tst)[:50])
+    late = sorted(set(late))
+    ok = not problems and not late
+    ctx.ob("R2", "DOM", g, T_ORDER, ok,
+           f"{len(sources)} specific sources all reach the list tested for emptiness and none is added after that decision" if ok else
+           "; ".join(sorted(set(problems)) + ([f"specific handlers added after the fallback decision: {late}"] if late else [])))
+
+
+def _beacon_loop_rule(ctx):
     lp = ctx.repo.func("client.HttpBeaconClient._beacon_loop")
-    fv = FuncView.of(lp.node)
-    gh = [c for c in fn_calls(lp.node) if dotted(c.func) == "self.get_handlers"]
-    fors = [s for s in statements(lp.node) if isinstance(s, ast.For) and gh and origin(lp.node, s.iter) is gh[0]]
-    ok = len(gh) == 1 and len(fors) == 1
+    fn = lp.node
+    fv = FuncView.of(fn)
+    cfg = ctx.cfg(lp)
+    T_ONE, T_CB, T_CID = "single dispatch site", "send_callback on truthy response", "command_id = task.command.value"
+
+    def is_method_call(c, name):
+        if dotted(c.func) == f"self.{name}":
+            return True
+        cal = ctx.rs.resolve_call(lp, c)
+        return cal.kind == "func" and cal.func is not None and cal.func.fq == f"client.HttpBeaconClient.{name}"
+
+    gh = [c for c in fn_calls(fn) if is_method_call(c, "get_handlers")]
+    gt = [c for c in fn_calls(fn) if is_method_call(c, "get_task")]
+    if not gh:
+        for t in (T_ONE, T_CB, T_CID):
+            ctx.undecided("R2", "DOM", lp, t, "the beacon loop does not call get_handlers; the dispatch cannot be located")
+        return
+    # the names that hold the task
+    task_names = {t.id for st in statements(fn) if isinstance(st, (ast.Assign, ast.AnnAssign)) and st.value is not None and any(st.value is c for c in gt)
+                  for t in (st.targets if isinstance(st, ast.Assign) else [st.target]) if isinstance(t, ast.Name)}
+    task_names |= {n.target.id for n in body_walk(fn) if isinstance(n, ast.NamedExpr) and any(n.value is c for c in gt)}
+
+    def is_task(e):
+        e2 = e
+        for _ in range(6):
+            if isinstance(e2, ast.Name) and e2.id in task_names:
+                return True
+            if any(e2 is c for c in gt):
+                return True
+            if isinstance(e2, ast.Name):
+                defs = assignments_to(fn, e2.id)
+                if len(defs) == 1 and defs[0][1] is not None:
+                    e2 = defs[0][1]
+                    continue
+            return False
+        return False
+
+    # ---- loops over the list returned by get_handlers
+    def iter_source(e):
+        """the get_handlers call that `e` iterates (through single-definition locals and transparent wrappers)"""
+        for n in _chain_nodes(fn, e):
+            if any(n is c for c in gh):
+                return n
+        return None
+
+    fors = [s for s in statements(fn) if isinstance(s, (ast.For, ast.AsyncFor)) and iter_source(s.iter) is not None]
+    problems = []
     calls = []
-    if ok:
-        hv = dotted(fors[0].target)
-        calls = [c for c in ast.walk(fors[0]) if isinstance(c, ast.Call) and dotted(c.func) == hv]
-        TASK = next((dotted(s2.targets[0]) for s2 in statements(lp.node) if isinstance(s2, ast.Assign) and isinstance(s2.value, ast.Call) and dotted(s2.value.func) == "self.get_task"), "task")
-        ok = len(calls) == 1 and len(calls[0].args) == 1 and dotted(calls[0].args[0]) == TASK
-        nested = [s for s in ast.walk(fors[0]) if isinstance(s, (ast.For, ast.While)) and s is not fors[0]]
-        ok = ok and not nested
-    ctx.ob("R2", "DOM", lp, "single dispatch site", ok, "each handler of the list returned by get_handlers(command_id) is called exactly once with the task" if ok else
-           f"dispatch is not one `for handler in get_handlers(..)` with one handler(task) call (get_handlers calls={len(gh)}, loops={len(fors)}, call sites={len(calls)})")
-    sc = [c for c in fn_calls(lp.node) if dotted(c.func) == "self.send_callback"]
-    RESP = None
-    if calls:
-        cst = fv.stmt_of(calls[0])
-        RESP = dotted(cst.targets[0]) if isinstance(cst, ast.Assign) else None
-    ok = len(sc) == 1 and RESP is not None and guarded_by(ctx, lp, sc[0], lambda t: True if dotted(t) == RESP else None) and any(isinstance(a, ast.Starred) and dotted(a.value) == RESP for a in sc[0].args)
-    ctx.ob("R2", "DOM", lp, "send_callback on truthy response", bool(ok), "a callback is sent only for a truthy handler response" if ok else "send_callback not guarded by the handler's response")
-    CID = dotted(gh[0].args[0]) if gh and gh[0].args else "command_id"
-    TASK = next((dotted(s2.targets[0]) for s2 in statements(lp.node) if isinstance(s2, ast.Assign) and isinstance(s2.value, ast.Call) and dotted(s2.value.func) == "self.get_task"), "task")
-    cid = [v for st, v in assignments_to(lp.node, CID)]
-    ok = len(cid) == 1 and f"{TASK}.command.value" in src(cid[0])
-    ctx.ob("R2", "AGREE", lp, "command_id = task.command.value", ok, f"command id derived from the task: {[src(c) for c in cid]}")
+    if len(gh) != 1:
+        problems.append(f"get_handlers is called at {len(gh)} sites")
+    if len(fors) != 1:
+        if not fors:
+            ctx.undecided("R2", "DOM", lp, T_ONE, "no `for` loop over the result of get_handlers(..) was located; the dispatch has a shape the rule does not understand")
+            ctx.undecided("R2", "DOM", lp, T_CB, "the dispatch loop was not located")
+            _cid_rule(ctx, lp, gh, task_names, T_CID)
+            return
+        problems.append(f"{len(fors)} loops iterate over the handlers")
+    loop = fors[0]
+    # what is iterated: the list itself, possibly through wrappers that keep every element at most once
+    # (list/tuple/iter/reversed/sorted/filter); the list twice (x + x, x * 2, chain(x, x)) is a double dispatch
+    wrapped = inline(fn, loop.iter, stop=frozenset(task_names))
+    unknown_wrapper = None
+    w = wrapped
+    while isinstance(w, ast.Call) and not is_method_call(w, "get_handlers"):
+        d = dotted(w.func)
+        if d in ("list", "tuple", "iter", "reversed", "sorted") and w.args:
+            w = w.args[0]
+        elif d == "filter" and len(w.args) == 2:
+            w = w.args[1]
+        else:
+            break
+    if not (isinstance(w, ast.Call) and is_method_call(w, "get_handlers")):
+        n_lists = sum(1 for n in ast.walk(wrapped) if isinstance(n, ast.Call) and is_method_call(n, "get_handlers"))
+        if n_lists >= 2 or any(isinstance(n, ast.BinOp) and isinstance(n.op, (ast.Mult, ast.Add)) for n in ast.walk(wrapped)):
+            problems.append(f"the loop iterates `{src(wrapped)[:60]}`, not the handler list itself")
+        else:
+            unknown_wrapper = src(wrapped)[:60]
+    hv = loop.target.id if isinstance(loop.target, ast.Name) else None
+    if hv is None:
+        ctx.undecided("R2", "DOM", lp, T_ONE, "the loop over the handlers does not bind a single name")
+        ctx.undecided("R2", "DOM", lp, T_CB, "the handler call was not located")
+        _cid_rule(ctx, lp, gh, task_names, T_CID)
+        return
+    calls = [c for c in ast.walk(loop) if isinstance(c, ast.Call) and _is_name(c.func, hv)]
+    header = cfg.node(loop)
+    if not calls:
+        problems.append("the handler is never called in the loop")
+    for c in calls:
+        cargs = list(c.args) + [k.value for k in c.keywords if k.arg is not None]
+        if len(cargs) != 1 or any(k.arg is None for k in c.keywords) or isinstance(cargs[0], ast.Starred) or not is_task(cargs[0]):
+            problems.append(f"`{src(c)[:40]}` is not handler(task)")
+        inner = [a for a in fv.ancestors(c) if isinstance(a, (ast.For, ast.AsyncFor, ast.While, ast.ListComp, ast.SetComp, ast.GeneratorExp, ast.DictComp)) and a is not loop and loop in fv.ancestors(a)]
+        if inner:
+            problems.append(f"`{src(c)[:40]}` sits in a nested loop")
+    for i, a in enumerate(calls):
+        for b in calls[i + 1:]:
+            sa, sb = fv.stmt_of(a), fv.stmt_of(b)
+            if sa is sb or cfg.reaches(cfg.node(sa), cfg.node(sb), avoiding=[header]) or cfg.reaches(cfg.node(sb), cfg.node(sa), avoiding=[header]):
+                problems.append(f"two handler calls for one handler of one task: `{src(sa)[:40]}` / `{src(sb)[:40]}`")
+    # the handler variable is not rebound inside the loop
+    if any(isinstance(s, (ast.Assign, ast.AugAssign, ast.AnnAssign)) and hv in {n.id for n in ast.walk(s) if isinstance(n, ast.Name) and isinstance(n.ctx, ast.Store)} for s in ast.walk(loop) if isinstance(s, ast.stmt)):
+        problems.append("the loop variable is rebound inside the loop")
+    ok = not problems
+    if ok and unknown_wrapper:
+        ctx.undecided("R2", "DOM", lp, T_ONE, f"the loop iterates `{unknown_wrapper}`; whether that keeps every handler exactly once is not known")
+    else:
+        ctx.ob("R2", "DOM", lp, T_ONE, ok, "each handler of the list returned by get_handlers(command_id) is called exactly once with the task" if ok else
+               "dispatch is not one `for handler in get_handlers(..)` with one handler(task) call: " + "; ".join(problems))
+
+    # ---- a callback is sent only for a truthy handler response, and it is that response
+    sc = [c for c in fn_calls(fn) if is_method_call(c, "send_callback")]
+    if not sc or not calls:
+        ctx.undecided("R2", "DOM", lp, T_CB, "no send_callback call / handler call located in the beacon loop")
+    else:
+        resp_names = _flow_names(fn, calls)
+        bad = []
+        for c in sc:
+            args = list(c.args) + [k.value for k in c.keywords]
+            from_resp = any((isinstance(n, ast.Name) and isinstance(n.ctx, ast.Load) and n.id in resp_names) or any(n is h for h in calls) for a in args for n in ast.walk(a))
+            if not from_resp:
+                if loop in fv.ancestors(c):
+                    bad.append(f"`{src(c)[:50]}` does not send the handler's response")
+                continue
+            guarded = False
+            for e, pol, _st in _controlling_conditions(ctx, lp, c):
+                flat = []
+                _flatten_condition(inline(fn, e, stop=frozenset(resp_names)), pol, flat)
+                if any(p2 and isinstance(e2, ast.Name) and e2.id in resp_names for e2, p2 in flat):
+                    guarded = True
+            if not guarded:
+                bad.append(f"`{src(c)[:50]}` is not guarded by the handler's response")
+        ctx.ob("R2", "DOM", lp, T_CB, not bad, "a callback is sent only for a truthy handler response" if not bad else "send_callback not guarded by the handler's response: " + "; ".join(bad))
+    _cid_rule(ctx, lp, gh, task_names, T_CID)
 
 
+def _cid_rule(ctx, lp, gh, task_names, text):
+    """the command id handed to get_handlers is derived from the task's command"""
+    fn = lp.node
+    bad, unknown = [], []
+    for c in gh:
+        a = c.args[0] if c.args and not isinstance(c.args[0], ast.Starred) else kwarg(c, "command_id")
+        if a is None:
+            unknown.append(f"`{src(c)[:50]}` passes no recognisable command id")
+            continue
+        nodes = _chain_nodes(fn, a, all_defs=True)
+        cmd = [n for n in nodes if isinstance(n, ast.Attribute) and n.attr == "command" and isinstance(n.value, ast.Name) and (n.value.id in task_names or not task_names)]
+        if not cmd:
+            bad.append(f"`{src(inline(fn, a, stop=frozenset(task_names)))[:60]}`")
+    if bad:
+        ctx.ob("R2", "AGREE", lp, text, False, f"command id not derived from the task's command: {bad}")
+    elif unknown:
+        ctx.undecided("R2", "AGREE", lp, text, "; ".join(unknown))
+    else:
+        ctx.ob("R2", "AGREE", lp, text, True, f"command id derived from the task: {[src(inline(fn, c.args[0] if c.args else kwarg(c, 'command_id'), stop=frozenset(task_names)))[:60] for c in gh]}")
+
+
+def r2(ctx):
+    _get_handlers_rule(ctx)
+    _beacon_loop_rule(ctx)
+
+
+# ------------------------------------------------------------------------------------------------ abstract interpreter
+class _Interp(absint.Interp):
+    """absint.Interp plus: refinement through chained comparisons (`0 <= x <= C`), parity refinement by `x % 2` /
+    `x & 1` tests, the other spellings of "clear bit 0", keyword arguments of int.to_bytes, random.randbytes."""
+
+    @staticmethod
+    def _bit0_of(e):
+        """X if e is `X % 2` or `X & 1` / `1 & X`"""
+        if isinstance(e, ast.BinOp):
+            if isinstance(e.op, ast.Mod) and _c(e.right) == 2:
+                return e.left
+            if isinstance(e.op, ast.BitAnd):
+                if _c(e.right) == 1:
+                    return e.left
+                if _c(e.left) == 1:
+                    return e.right
+        return None
+
+    def _parity_fact(self, test, outcome):
+        x = self._bit0_of(test)
+        if x is not None:
+            return x, (1 if outcome else 0)
+        if isinstance(test, ast.Compare) and len(test.ops) == 1 and isinstance(test.ops[0], (ast.Eq, ast.NotEq)):
+            for l, r in ((test.left, test.comparators[0]), (test.comparators[0], test.left)):
+                x, k = self._bit0_of(l), _c(r)
+                if x is not None and k in (0, 1) and not isinstance(k, bool):
+                    same = isinstance(test.ops[0], ast.Eq) == outcome
+                    return x, (k if same else 1 - k)
+        return None
+
+    def _ev(self, e, env):
+        if isinstance(e, (ast.BinOp, ast.UnaryOp)):
+            k = _c(e)
+            if k is None and isinstance(e, ast.BinOp) and isinstance(e.op, ast.Pow):
+                a, b = _c(e.left), _c(e.right)
+                if isinstance(a, int) and isinstance(b, int) and 0 <= b <= 128 and abs(a) <= 1 << 16:
+                    k = a ** b
+            if isinstance(k, int) and not isinstance(k, bool):
+                return absint.aint(k, k, k % 2)
+        return super()._ev(e, env)
+
+    def _range_fact(self, test, env, outcome):
+        """bounds implied for a dotted name by `x in range(a, b)`, a falsy `x >> k`, a falsy `x & 2**k` (x < 2**(k+1))"""
+        if isinstance(test, ast.Compare) and len(test.ops) == 1 and isinstance(test.ops[0], (ast.In, ast.NotIn)):
+            r = test.comparators[0]
+            if isinstance(r, ast.Call) and dotted(r.func) == "range" and 1 <= len(r.args) <= 2 and not r.keywords and (isinstance(test.ops[0], ast.In) == outcome):
+                lo = _c(r.args[0]) if len(r.args) == 2 else 0
+                hi = _c(r.args[-1])
+                if isinstance(lo, int) and isinstance(hi, int):
+                    return test.left, absint.Itv(lo, hi - 1)
+        if not outcome and isinstance(test, ast.BinOp):
+            v = self.ev(test.left, env)
+            k = _c(test.right)
+            if v.kind == "int" and v.itv.nonneg and isinstance(k, int) and not isinstance(k, bool) and k >= 0:
+                if isinstance(test.op, ast.RShift) and k <= 128:
+                    return test.left, absint.Itv(0, (1 << k) - 1)
+                if isinstance(test.op, ast.BitAnd) and k > 0 and k & (k - 1) == 0 and v.itv.hi is not None and v.itv.hi < 2 * k:
+                    return test.left, absint.Itv(0, k - 1)
+        return None
+
+    def refine(self, test, env, outcome):
+        rf = self._range_fact(test, env, outcome)
+        if rf is not None:
+            d = dotted(rf[0])
+            v = env.get(d) if d else None
+            if v is not None and v.kind == "int":
+                m = v.itv.meet(rf[1])
+                if m is None:
+                    return None
+                out = dict(env)
+                out[d] = replace(v, itv=m)
+                return out
+        if isinstance(test, ast.Compare) and len(test.ops) > 1:
+            parts = compare_parts(test, mirrored=False)
+            conj = ast.BoolOp(op=ast.And(), values=[ast.Compare(left=l, ops=[op], comparators=[r]) for l, op, r in parts])
+            return self.refine(ast.copy_location(conj, test), env, outcome)
+        out = super().refine(test, env, outcome)
+        if out is None:
+            return None
+        pf = self._parity_fact(test, outcome)
+        if pf is not None:
+            d = dotted(pf[0])
+            v = out.get(d) if d else None
+            if v is not None and v.kind == "int":
+                if v.parity is not None and v.parity != pf[1]:
+                    return None
+                out = dict(out)
+                out[d] = replace(v, parity=pf[1])
+        return out
+
+    def _clears_bit0(self, e):
+        l, r = e.left, e.right
+        if isinstance(e.op, (ast.Sub, ast.BitXor)):
+            x = self._bit0_of(r)
+            if x is not None and src(x) == src(l):
+                return True  # X - X % 2, X - (X & 1), X ^ (X & 1)
+        if isinstance(e.op, ast.LShift) and _c(r) == 1 and isinstance(l, ast.BinOp) and isinstance(l.op, ast.RShift) and _c(l.right) == 1:
+            return True  # (X >> 1) << 1
+        if isinstance(e.op, ast.Mult) and 2 in (_c(l), _c(r)):
+            return True
+        return False
+
+    def _binop(self, e, env):
+        v = super()._binop(e, env)
+        if v.kind == "int" and v.parity != 0 and self._clears_bit0(e):
+            v = replace(v, parity=0)
+            if isinstance(e.op, (ast.Sub, ast.BitXor)):
+                a = self.ev(e.left, env)
+                if a.kind == "int":
+                    lo = None if a.itv.lo is None else a.itv.lo - 1
+                    v = replace(v, itv=absint.Itv(lo, a.itv.hi))
+        return v
+
+    def _call(self, c, env):
+        v = super()._call(c, env)
+        name = dotted(c.func)
+        if isinstance(c.func, ast.Attribute) and c.func.attr == "to_bytes" and not (v.kind == "bytes" and v.length.hi is not None):
+            n = kwarg(c, "length")
+            if n is not None:
+                nv = self.ev(n, env)
+                if nv.kind == "int" and nv.itv.nonneg:
+                    return absint.AVal("bytes", absint.TOP, nv.itv)
+        if name in ("random.randbytes", "os.urandom", "secrets.token_bytes") and c.args:
+            nv = self.ev(c.args[0], env)
+            if nv.kind == "int" and nv.itv.nonneg:
+                return absint.AVal("bytes", absint.TOP, nv.itv)
+        return v
+
+
+def _run_interp(f):
+    it = _Interp(f.node, {"beacon_id": absint.aint(), "user": absint.AVal("str"), "computer": absint.AVal("str"), "process": absint.AVal("str")})
+    it.run()
+    return it
+
+
+def _metadata_field_values(f, field):
+    """[(statement, value expression)] of every place where `field` of the beacon metadata gets its value:
+    `<..>.metadata.<field> = v`, `BeaconMetadata(<field>=v)`, `setattr(<..>metadata, "<field>", v)`."""
+    out = []
+    for st in statements(f.node):
+        if isinstance(st, (ast.Assign, ast.AnnAssign)) and st.value is not None:
+            for t in (st.targets if isinstance(st, ast.Assign) else [st.target]):
+                d = dotted(t) or ""
+                if isinstance(t, ast.Attribute) and t.attr == field and d.split(".")[-2:-1] and "metadata" in d.split(".")[-2].lower():
+                    out.append((st, st.value))
+                elif isinstance(t, ast.Attribute) and t.attr == field and isinstance(t.value, ast.Name):
+                    # a local that holds the metadata object
+                    defs = [v for _s, v in assignments_to(f.node, t.value.id) if v is not None]
+                    if any(isinstance(v, ast.Call) and (dotted(v.func) or "").endswith("BeaconMetadata") for v in defs):
+                        out.append((st, st.value))
+    fv = FuncView.of(f.node)
+    for c in fn_calls(f.node):
+        d = dotted(c.func) or ""
+        if d.endswith("BeaconMetadata") and kwarg(c, field) is not None:
+            out.append((fv.stmt_of(c), kwarg(c, field)))
+        if d == "setattr" and len(c.args) == 3 and _c(c.args[1]) == field and "metadata" in src(c.args[0]).lower():
+            out.append((fv.stmt_of(c), c.args[2]))
+    return out
+
+
+# ------------------------------------------------------------------------------------------------ R3
 def r3(ctx):
     f = ctx.repo.func("client.HttpBeaconClient.run")
-    it = absint.Interp(f.node, {"beacon_id": absint.aint(), "user": absint.AVal("str"), "computer": absint.AVal("str"), "process": absint.AVal("str")})
-    it.run()
-    stores = [s for s in statements(f.node) if isinstance(s, ast.Assign) and (dotted(s.targets[0]) or "").endswith("metadata.bid")]
-    if len(stores) != 1:
-        ctx.ob("R3", "ABS", f, "metadata.bid store", False, f"{len(stores)} stores of the beacon id into the metadata")
-        return
-    st = stores[0]
-    env = it.before.get(id(st), {})
-    v = it.ev(st.value, env)
-    ok = v.kind == "int" and v.parity == 0 and v.itv.within(0, 2**31 - 1)
-    ctx.ob("R3", "ABS", f, src(st), ok,
-           f"at `{src(st)}` the id has interval {v.itv} and parity {'even' if v.parity == 0 else 'odd' if v.parity == 1 else 'unknown'} for an arbitrary integer input; required even and within [0, 2^31)", st)
-    # the id sent in callbacks and used for the seed is the same normalised attribute
-    for fq, text in (("client.HttpBeaconClient.send_callback", "str(self.beacon_id).encode()"),):
-        g = ctx.repo.func(fq)
-        ok = any(src(n) == text for n in body_walk(g.node))
-        ctx.ob("R3", "AGREE", g, text, ok, "callbacks carry the normalised id" if ok else "callbacks do not use self.beacon_id")
+    text = "self.metadata.bid = self.beacon_id"
+    it = _run_interp(f)
+    stores = _metadata_field_values(f, "bid")
+    if not stores:
+        ctx.undecided("R3", "ABS", f, text, "the place where the beacon id enters the metadata (field `bid`) was not located in run()")
+    for st, value in stores:
+        env = it.before.get(id(st))
+        if env is None:
+            ctx.undecided("R3", "ABS", f, text, f"`{src(st)[:60]}` is not reached by the abstract interpreter (unreachable or inside a construct it skips)", st)
+            continue
+        v = it.ev(value, env)
+        if v.kind != "int":
+            ctx.undecided("R3", "ABS", f, text, f"the value stored at `{src(st)[:60]}` is computed by operations the interval/parity domain does not model (no int value inferred)", st)
+            continue
+        ok = v.parity == 0 and v.itv.within(0, 2**31 - 1)
+        ctx.ob("R3", "ABS", f, text, ok,
+               f"at `{src(st)[:60]}` the id has interval {v.itv} and parity {'even' if v.parity == 0 else 'odd' if v.parity == 1 else 'unknown'} for an arbitrary integer input; required even and within [0, 2^31)", st)
+    # the id sent in callbacks is the same normalised attribute
+    g = ctx.repo.func("client.HttpBeaconClient.send_callback")
+    t2 = "str(self.beacon_id).encode()"
+    ids = []
+    for c in fn_calls(g.node):
+        d = dotted(c.func) or ""
+        a = kwarg(c, "id")
+        if a is None and d.endswith("C2Data") and len(c.args) >= 3 and not any(isinstance(x, ast.Starred) for x in c.args[:3]):
+            a = c.args[2]
+        if a is not None and (d.endswith("C2Data") or kwarg(c, "id") is not None):
+            ids.append(a)
+    if not ids:
+        ctx.undecided("R3", "AGREE", g, t2, "the `id` handed to the client C2 data in send_callback was not located")
+    else:
+        def leaves(e):
+            e = inline(g.node, e)
+            par = {}
+            for n in ast.walk(e):
+                for ch in ast.iter_child_nodes(n):
+                    par[id(ch)] = n
+            return {dotted(n) for n in ast.walk(e) if isinstance(n, (ast.Name, ast.Attribute)) and dotted(n) and not isinstance(par.get(id(n)), ast.Attribute)
+                    and not (isinstance(par.get(id(n)), ast.Call) and par[id(n)].func is n)}
+
+        ok = all(any(x in ("self.beacon_id", "self.metadata.bid") for x in leaves(a)) for a in ids)
+        ctx.ob("R3", "AGREE", g, t2, ok, "callbacks carry the normalised id" if ok else f"callbacks do not use self.beacon_id: id={[src(a)[:40] for a in ids]}")
     # out-of-range ids are rejected with ValueError
     cfg = ctx.cfg(f)
+    fv = FuncView.of(f.node)
     for r in cfg.raise_stmts():
-        conds = [t for t, pol, n in dominating_conditions(ctx, f, r) if pol]
-        if any("beacon_id" in t for t in conds):
-            ctx.ob("R3", "EXIT", f, src(r)[:60], raise_class(r) == "ValueError", f"out-of-range id raises {raise_class(r)}", r)
+        branch = fv.enclosing(r, (ast.If,))
+        if branch is not None and "beacon_id" in src(inline(f.node, branch.test)):
+            ctx.ob("R3", "EXIT", f, "raise on out-of-range beacon id", raise_class(r) == "ValueError", f"out-of-range id raises {raise_class(r)}", r)
 
 
-def _uses_random(ctx, f, call, cache={}):
+# ------------------------------------------------------------------------------------------------ R4
+def _uses_random(ctx, f, call):
+    cache = ctx.__dict__.setdefault("_c19_uses_random", {})
     cal = ctx.rs.resolve_call(f, call)
     d = dotted(call.func) or ""
-    if d.startswith("random."):
+    if d.startswith("random.") and d not in ("random.Random", "random.SystemRandom"):
         return True
     if cal.kind == "func" and cal.func is not None:
         fq = cal.func.fq
@@ -166,93 +969,222 @@ def _uses_random(ctx, f, call, cache={}):
     return False
 
 
+def _is_global_random(c):
+    d = dotted(c.func) or ""
+    return d.startswith("random.") and d not in ("random.Random", "random.SystemRandom", "random.seed")
+
+
 def r4(ctx):
     f = ctx.repo.func("client.HttpBeaconClient.run")
+    fn = f.node
     cfg = ctx.cfg(f)
-    fv = FuncView.of(f.node)
-    seeds = [c for c in fn_calls(f.node) if dotted(c.func) == "random.seed"]
-    rand = [s for s in statements(f.node) if isinstance(s, ast.Assign) and dotted(s.targets[0]) == "self.aes_rand"]
-    if len(seeds) != 1 or len(rand) != 1:
-        ctx.ob("R4", "DOM", f, "random.seed / aes_rand", False, f"{len(seeds)} seed calls, {len(rand)} aes_rand assignments")
+    fv = FuncView.of(fn)
+    text = "random.seed(g(beacon_id)) -> aes_rand"
+    seeds = [c for c in fn_calls(fn) if dotted(c.func) == "random.seed"]
+    rand = [(s, v) for s in statements(fn) for t, vals in _added_values(s) if t is not None and _is_self_attr(t, "aes_rand") for v in vals]
+    # tuple assignment `self.aes_rand, x = a, b`
+    for s in statements(fn):
+        if isinstance(s, ast.Assign):
+            for t in s.targets:
+                if isinstance(t, (ast.Tuple, ast.List)) and isinstance(s.value, (ast.Tuple, ast.List)) and len(t.elts) == len(s.value.elts):
+                    rand += [(s, ve) for te, ve in zip(t.elts, s.value.elts) if _is_self_attr(te, "aes_rand")]
+    if not rand:
+        ctx.undecided("R4", "DOM", f, text, "no assignment of self.aes_rand was located in run()")
         return
-    sst, rst = fv.stmt_of(seeds[0]), rand[0]
-    arg = seeds[0].args[0] if seeds[0].args else None
-    names = {src(n) for n in ast.walk(arg) if isinstance(n, (ast.Name, ast.Attribute)) and not isinstance(fv.parent.get(id(n)), ast.Attribute)} if arg is not None else set()
+    if len(rand) != 1:
+        ctx.ob("R4", "DOM", f, text, False, f"{len(rand)} assignments of self.aes_rand")
+        return
+    rst, rval = rand[0]
+    # the draws that feed aes_rand (through locals)
+    chain = _chain_nodes(fn, rval, all_defs=True)
+    draws = [n for n in chain if isinstance(n, ast.Call) and _is_global_random(n)]
+    if not draws:
+        if any(isinstance(n, ast.Call) and (dotted(n.func) or "") in ("random.Random", "random.SystemRandom", "os.urandom", "secrets.token_bytes") for n in chain):
+            ctx.ob("R4", "DOM", f, text, False, f"aes_rand is drawn from a generator that random.seed(id) does not control: `{src(inline(fn, rval))[:70]}`", rst)
+        else:
+            ctx.undecided("R4", "DOM", f, text, f"aes_rand is not drawn from the random module (`{src(inline(fn, rval))[:70]}`); its dependence on the id is not analysed", rst)
+        return
+    if len(seeds) != 1:
+        ctx.ob("R4", "DOM", f, text, False, f"{len(seeds)} random.seed calls for the draw that feeds aes_rand")
+        return
+    sst = fv.stmt_of(seeds[0])
+    dsts = [fv.stmt_of(d) for d in draws]
+    arg = seeds[0].args[0] if seeds[0].args else kwarg(seeds[0], "a")
+    # ---- the seed is a function of the normalised id only
+    stores = [s for s in statements(fn) for t, _v in _added_values(s) if t is not None and _is_self_attr(t, "beacon_id")]
+    last = [s for s in stores if cfg.has(s) and not any(o is not s and cfg.has(o) and cfg.reaches(cfg.node(s), cfg.node(o)) for o in stores)]
+    norm_texts = set()
+    for s in last:
+        if isinstance(s, (ast.Assign, ast.AnnAssign)) and s.value is not None:
+            v = inline(fn, s.value)
+            if any(isinstance(n, ast.Attribute) for n in ast.walk(v)):
+                continue
+            # the same text denotes the same value at the seed only if none of its names is rebound in between
+            rebound = False
+            for nm in {n.id for n in ast.walk(v) if isinstance(n, ast.Name)}:
+                for dst, _dv in assignments_to(fn, nm):
+                    d2 = dst if isinstance(dst, ast.stmt) else fv.stmt_of(dst)
+                    if d2 is not None and cfg.has(d2) and cfg.reaches(cfg.node(s), cfg.node(d2)) and cfg.reaches(cfg.node(d2), cfg.node(sst)):
+                        rebound = True
+            if not rebound:
+                norm_texts.add(src(v))
+    names = set()
+    if arg is not None:
+        e = inline(fn, arg)
+
+        class _Sub(ast.NodeTransformer):
+            def generic_visit(self, node):
+                if isinstance(node, ast.expr) and src(node) in norm_texts:
+                    return ast.copy_location(ast.Attribute(value=ast.Name(id="self", ctx=ast.Load()), attr="beacon_id", ctx=ast.Load()), node)
+                return super().generic_visit(node)
+
+        e = _Sub().visit(copy.deepcopy(e))
+        par = {}
+        for n in ast.walk(e):
+            for ch in ast.iter_child_nodes(n):
+                par[id(ch)] = n
+        names = {src(n) for n in ast.walk(e) if isinstance(n, (ast.Name, ast.Attribute)) and not isinstance(par.get(id(n)), ast.Attribute)
+                 and not (isinstance(par.get(id(n)), ast.Call) and par[id(n)].func is n) and _const(ctx, f, n) is None}
     dep_ok = names == {"self.beacon_id"}
-    dom = cfg.dominates(cfg.node(sst), cfg.node(rst))
-    # normalisation precedes the seed
-    norm = [s for s in statements(f.node) if isinstance(s, ast.Assign) and dotted(s.targets[0]) == "self.beacon_id"]
-    after_norm = all(cfg.dominates(cfg.node(n), cfg.node(sst)) for n in norm) and not any(cfg.reaches(cfg.node(sst), cfg.node(n)) for n in norm)
-    # no RNG use between
+    dom = all(cfg.dominates(cfg.node(sst), cfg.node(d)) for d in dsts)
+    # the normalisation precedes the seed: no store of the id is executed after the seed was taken
+    after_norm = bool(stores) and not any(cfg.has(n) and cfg.reaches(cfg.node(sst), cfg.node(n)) for n in stores) and any(cfg.has(n) and cfg.dominates(cfg.node(n), cfg.node(sst)) for n in stores)
+    # ---- no RNG use between the seed and the draw, exactly one draw
+    draw_ids = {id(d) for d in draws}
     between = []
-    for c in fn_calls(f.node):
-        if c is seeds[0]:
+    for c in fn_calls(fn):
+        if c is seeds[0] or id(c) in draw_ids:
             continue
         cst = fv.stmt_of(c)
-        if cst is rst or not cfg.has(cst):
+        if cst is None or not cfg.has(cst):
             continue
-        if _uses_random(ctx, f, c) and cfg.reaches(cfg.node(sst), cfg.node(cst), avoiding=[cfg.node(rst)]) and cfg.reaches(cfg.node(cst), cfg.node(rst), avoiding=[cfg.node(sst)]):
-            between.append(src(c)[:40])
-    bits = [c for c in ast.walk(rst.value) if isinstance(c, ast.Call) and dotted(c.func) == "random.getrandbits"]
-    b_ok = len(bits) == 1 and _c(bits[0].args[0]) == 128 and "to_bytes(16" in src(rst.value)
-    ctx.ob("R4", "DOM", f, "random.seed(g(beacon_id)) -> aes_rand", dep_ok and dom and after_norm and not between and b_ok,
+        if not _uses_random(ctx, f, c):
+            continue
+        for dst in dsts:
+            if cst is dst or (cfg.reaches(cfg.node(sst), cfg.node(cst), avoiding=[cfg.node(dst)]) and cfg.reaches(cfg.node(cst), cfg.node(dst), avoiding=[cfg.node(sst)])):
+                between.append(src(c)[:40])
+                break
+    one_draw = len(draws) == 1 and not any(cfg.in_cycle(cfg.node(d)) for d in dsts) and not any(
+        isinstance(a, (ast.ListComp, ast.GeneratorExp, ast.SetComp, ast.DictComp)) for d in draws for a in fv.ancestors(d))
+    # ---- fixed width: the value is exactly 16 bytes (the width of the metadata field the server hashes)
+    it = _run_interp(f)
+    env = it.before.get(id(rst))
+    v = it.ev(rval, env) if env is not None else absint.UNKNOWN
+    b_ok = v.kind == "bytes" and v.length.lo == 16 and v.length.hi == 16
+    if b_ok:
+        # int.to_bytes(n) raises OverflowError for a draw of more than 8n bits
+        for d in draws:
+            if dotted(d.func) == "random.getrandbits" and d.args:
+                k = _c(inline(fn, d.args[0]))
+                if not (isinstance(k, int) and k <= 128):
+                    b_ok = False
+    ok = dep_ok and dom and after_norm and not between and b_ok and one_draw
+    ctx.ob("R4", "DOM", f, text, ok,
            f"seed depends only on the normalised id={dep_ok} ({sorted(names)}); follows the normalisation={after_norm}; dominates the aes_rand draw={dom}; "
-           f"RNG uses in between={between}; aes_rand = 16 bytes from getrandbits(128)={b_ok}", rst)
+           f"RNG uses in between={between}; single draw={one_draw}; aes_rand = exactly 16 bytes={b_ok} (length {v.length if v.kind == 'bytes' else 'unknown'})", rst)
 
 
+# ------------------------------------------------------------------------------------------------ R5
 def r5(ctx):
     f = ctx.repo.func("client.HttpBeaconClient.run")
+    text = "self.metadata.info = info_bytes"
     cd = ctx.cdefs("c_c2").get("c2struct")
     fixed = cd.struct("BeaconMetadata").fixed_prefix_size if cd else None
     limit = 128 - 11 - (fixed or 0)
-    it = absint.Interp(f.node, {"beacon_id": absint.aint(), "user": absint.AVal("str"), "computer": absint.AVal("str"), "process": absint.AVal("str")})
-    it.run()
-    stores = [s for s in statements(f.node) if isinstance(s, ast.Assign) and (dotted(s.targets[0]) or "").endswith("metadata.info")]
-    if len(stores) != 1:
-        ctx.ob("R5", "ABS", f, "metadata.info store", False, f"{len(stores)} stores of the info field")
+    it = _run_interp(f)
+    stores = _metadata_field_values(f, "info")
+    if not stores:
+        ctx.undecided("R5", "ABS", f, text, "the place where the info string enters the metadata (field `info`) was not located in run()")
         return
-    st = stores[0]
-    v = it.ev(st.value, it.before.get(id(st), {}))
-    ok = v.kind == "bytes" and v.length.hi is not None and v.length.hi <= limit
-    ctx.ob("R5", "ABS", f, src(st), ok,
-           f"len(info bytes) has interval {v.length} for arbitrary user/computer/process names (str.encode() is up to 4 bytes per character); "
-           f"the metadata must fit a 1024-bit RSA key: 128 - 11 (PKCS#1 v1.5) - {fixed} (fixed part) = {limit} bytes", st)
+    for st, value in stores:
+        env = it.before.get(id(st))
+        if env is None:
+            ctx.undecided("R5", "ABS", f, text, f"`{src(st)[:60]}` is not reached by the abstract interpreter", st)
+            continue
+        v = it.ev(value, env)
+        ok = v.kind == "bytes" and v.length.hi is not None and v.length.hi <= limit
+        ctx.ob("R5", "ABS", f, text, ok,
+               f"len(info bytes) has interval {v.length} (kind {v.kind}) for arbitrary user/computer/process names (str.encode() is up to 4 bytes per character); "
+               f"the metadata must fit a 1024-bit RSA key: 128 - 11 (PKCS#1 v1.5) - {fixed} (fixed part) = {limit} bytes", st)
 
 
+# ------------------------------------------------------------------------------------------------ R6
 def r6(ctx):
     f = ctx.repo.func("client.HttpBeaconClient.get_sleep_time")
-    rets = [s for s in statements(f.node) if isinstance(s, ast.Return)]
-    ok = False
-    detail = "return shape not recognised"
-    if len(rets) == 1 and rets[0].value is not None:
-        unis = []
+    fn = f.node
+    text = "return self.sleeptime - random.uniform(0, self.sleeptime * self.jitter / 100)"
+    rets = [s for s in statements(fn) if isinstance(s, ast.Return) and s.value is not None]
+    S, J = SymPoly.atom("self.sleeptime"), SymPoly.atom("self.jitter")
+    band = {S - (S * J).div_const(100), S}
+    if not rets:
+        ctx.undecided("R6", "ABS", f, text, "get_sleep_time has no return value")
+    for ret in rets:
+        unis = {}
 
         def subst(x, depth=[0]):
-            if isinstance(x, ast.Call) and dotted(x.func) == "random.uniform" and len(x.args) == 2:
-                unis.append(x)
-                return SymPoly.atom("U")
-            if isinstance(x, ast.Name) and x.id not in params(f.node):
-                defs = [v for _st, v in assignments_to(f.node, x.id)]
-                if len(defs) == 1 and defs[0] is not None and depth[0] < 6:
+            if isinstance(x, ast.Call) and dotted(x.func) == "random.uniform" and len(x.args) == 2 and not x.keywords:
+                unis.setdefault(id(x), (f"U{len(unis)}", x))
+                return SymPoly.atom(unis[id(x)][0])
+            if isinstance(x, ast.Call) and dotted(x.func) == "random.random" and not x.args:
+                unis.setdefault(id(x), (f"U{len(unis)}", x))
+                return SymPoly.atom(unis[id(x)][0])
+            if isinstance(x, ast.Call) and dotted(x.func) == "float" and len(x.args) == 1:
+                return sympoly(x.args[0], subst)
+            if isinstance(x, ast.Name) and x.id not in params(fn):
+                defs = assignments_to(fn, x.id)
+                if len(defs) == 1 and defs[0][1] is not None and depth[0] < 6:
                     depth[0] += 1
                     try:
-                        return sympoly(defs[0], subst)
+                        return sympoly(defs[0][1], subst)
                     finally:
                         depth[0] -= 1
             return None
 
-        total = sympoly(rets[0].value, subst)
-        if total is not None and len({id(u) for u in unis}) == 1:
-            u = unis[0]
+        total = sympoly(ret.value, subst)
+        if total is None or len(unis) != 1 or not (total.atoms() - {"U0"}) <= {"self.sleeptime", "self.jitter"}:
+            ctx.undecided("R6", "ABS", f, text, f"the returned expression `{src(inline(fn, ret.value))[:80]}` is not a polynomial in sleeptime, jitter and one uniform draw", ret)
+            continue
+        (_name, u), = unis.values()
+        if dotted(u.func) == "random.random":
+            lo, hi = SymPoly.const(0), SymPoly.const(1)
+        else:
             lo, hi = sympoly(u.args[0], subst), sympoly(u.args[1], subst)
-            S, J = SymPoly.atom("self.sleeptime"), SymPoly.atom("self.jitter")
-            want_total = S - SymPoly.atom("U")
-            want_hi = (S * J).div_const(100)
-            ok = total == want_total and lo == SymPoly.const(0) and hi == want_hi
-            detail = f"returns {total} with U = uniform({lo}, {hi}); required S - U with U in [0, S*J/100] so the result lies in [S - S*J/100, S] for S, J >= 0"
-    ctx.ob("R6", "ABS", f, "return " + (src(rets[0].value) if rets else "?"), ok, detail)
+        # total = A + B*U, affine in the draw
+        A, B, affine = {}, {}, lo is not None and hi is not None
+        for k, c in total.terms.items():
+            n = k.count("U0")
+            if n == 0:
+                A[k] = c
+            elif n == 1:
+                kk = list(k)
+                kk.remove("U0")
+                B[tuple(kk)] = c
+            else:
+                affine = False
+        if not affine or (lo.atoms() | hi.atoms()) & {"U0"}:
+            ctx.undecided("R6", "ABS", f, text, f"the returned expression is not affine in the uniform draw: {total}", ret)
+            continue
+        A, B = SymPoly(A), SymPoly(B)
+        ends = {A + B * lo, A + B * hi}
+        ok = ends == band
+        ctx.ob("R6", "ABS", f, text, ok,
+               f"returns {total} with U0 in [{lo}, {hi}]: the value ranges between {A + B * lo} and {A + B * hi}; required: between S - S*J/100 and S (S = sleeptime, J = jitter >= 0)", ret)
     run = ctx.repo.func("client.HttpBeaconClient.run")
-    binds = {dotted(st.targets[0] if isinstance(st, ast.Assign) else st.target): src(st.value) for st in statements(run.node)
-             if isinstance(st, (ast.Assign, ast.AnnAssign)) and st.value is not None and not isinstance(getattr(st, "targets", [None])[0], ast.Tuple)}
-    ok = "SETTING_SLEEPTIME" in binds.get("self.sleeptime", "") and "SETTING_JITTER" in binds.get("self.jitter", "")
-    ctx.ob("R6", "AGREE", run, "sleeptime/jitter source", ok, f"sleeptime={binds.get('self.sleeptime')} jitter={binds.get('self.jitter')}")
+    t2 = "sleeptime/jitter source"
+    found = {}
+    for attr, setting in (("sleeptime", "SETTING_SLEEPTIME"), ("jitter", "SETTING_JITTER")):
+        vals = [v for st in statements(run.node) for t, vs in _added_values(st) if t is not None and _is_self_attr(t, attr) for v in vs]
+        for st in statements(run.node):
+            if isinstance(st, ast.Assign):
+                for t in st.targets:
+                    if isinstance(t, (ast.Tuple, ast.List)) and isinstance(st.value, (ast.Tuple, ast.List)) and len(t.elts) == len(st.value.elts):
+                        vals += [ve for te, ve in zip(t.elts, st.value.elts) if _is_self_attr(te, attr)]
+        if not vals:
+            found[attr] = None
+            continue
+        found[attr] = any(setting in src(n) for v in vals for n in _chain_nodes(run.node, v, all_defs=True) if isinstance(n, (ast.Constant, ast.Attribute, ast.Name)))
+    if any(v is None for v in found.values()):
+        ctx.undecided("R6", "AGREE", run, t2, f"run() does not store {[k for k, v in found.items() if v is None]} on the client; the source of the sleep settings was not located")
+    else:
+        ok = all(found.values())
+        ctx.ob("R6", "AGREE", run, t2, ok, "sleeptime and jitter default to the beacon's SETTING_SLEEPTIME / SETTING_JITTER" if ok else f"sleeptime/jitter not taken from the beacon settings: {found}")
